@@ -20,7 +20,7 @@ A = lambda n: ('a', n)
 
 def leaves():
     base = [('is', 'truthy'), ('is', 'pos'), ('is', 'never'), ('iseq', '1'), ('iseq', "'a'"), ('iseq', '[1]'),
-            ('isinst', ('int',)), ('isinst', ('int', 'str')), ('issub', ('int',))]
+            ('isinst', ('int',)), ('isinst', ('int', 'str')), ('issub', ('int',)), ('isinst', ('str',))]
     inner = [('iseq', '1'), ('is', 'truthy'), ('isinst', ('str',)) if False else ('isinst', ('int', 'str'))]
     attr = [('isattr', 'x', v) for v in inner]
     attr += [('isattr', 'y', ('iseq', '1'))]
@@ -255,6 +255,14 @@ def run(ctx):
         work.append(((a, b), 'object', PLACEMENTS))
     for a, b in itertools.permutations([('not', R[0]), ('and', R[4], R[5]), ('or', R[1], R[4]), R[4], R[5]], 2):
         work.append(((a, b), 'object', PLACEMENTS))
+    # every ordered pair of plain leaves as two validators of one Annotated (the second must see the object, not an
+    # intermediate value of the first), a few triples
+    base_leaves = leaves()[:10]
+    for n_pair, (a, b) in enumerate(itertools.permutations(base_leaves, 2)):
+        if ((a, b), 'object', PLACEMENTS) not in work:
+            work.append(((a, b), 'object', PLACEMENTS if not ctx.quick or (n_pair + ctx.seed) % 2 == 0 else ('root', 'list', 'dictval')))
+    for a, b, c in itertools.permutations([('iseq', "'a'"), ('isinst', ('str',)), ('is', 'truthy'), ('iseq', '1')], 3):
+        work.append(((a, b, c), 'object', ('root', 'list', 'tuple2')))
     _STATE['work'] = work
     _STATE['objs'] = objects()
     tot = {}
